@@ -361,10 +361,10 @@ func journal(sub string, c any) {
 
 func TestCheck(t *testing.T) {
 	vcommon.Main(t, "C03",
-		vcommon.S("source-bytes", 4000, 400000, genSource(), checkSource),
-		vcommon.S("apply-registry", 32000, 3200000, genApply(), checkApply),
-		vcommon.S("readers-unlimited", 2400, 800000, genReaderSrc(), checkReaders),
-		vcommon.S("mutate-then-read", 9600, 1600000, genSeq(), checkSeq),
+		vcommon.S("source-bytes", 4000, 120000, genSource(), checkSource),
+		vcommon.S("apply-registry", 32000, 960000, genApply(), checkApply),
+		vcommon.S("readers-unlimited", 2400, 160000, genReaderSrc(), checkReaders),
+		vcommon.S("mutate-then-read", 9600, 320000, genSeq(), checkSeq),
 		vcommon.E("source-matrix", enumMatrix, checkSource),
 		vcommon.E("readers-matrix", enumReaderMatrix, checkReaders),
 		vcommon.E("near-valid-strings", enumNearValid, checkNearValid),
